@@ -200,6 +200,13 @@ REPAIRED = {"F27-offset-without-limit", "F03-double-minus", "F60-module-sibling-
             "F65-sort-survives-aggregate"}
 
 
+# C06 ids that record, for pairs produced by a rewrite, a defect that relational.json has under a shared id
+SAME_DEFECT = {"F62-let-loses-window-order": "F35-let-boundary-hides-order-from-window",
+               "F64-let-column-alias-lost": "F36-let-table-star-loses-derived-name",
+               "F68-let-sort-key-recomputed": "F39-let-sort-key-expression-reinlined",
+               "F69-sort-alias-not-carried": "F24-dangling-generated-alias"}
+
+
 def classify_side(rec):
     """known defect that explains why THIS side is not what the reference semantics says.  The narrow C06 classes that are
     instances of a broader shared class (classify_first) are tried before the shared classifier, so that they are counted
@@ -396,6 +403,11 @@ def judge_pair(ck, stream, case, label, rb, rr):
             ck.stat(stream, "skipped:" + ids[0])
             return
         fids = real         # each side that left the meaning is explained by its own finding: both are counted
+        open_ids = {f["id"] for f in ck.findings if f.get("status", "open") == "open"}
+        for i in list(real):
+            fam = SAME_DEFECT.get(i)
+            if fam in open_ids and fam not in fids:
+                fids.append(fam)    # the C06 id is the rewrite-specific record of a shared relational finding: that one is reproduced too
     for fid in fids:
         ck.disagreement("%s [%s] %s: %s  ==>  %s" % (why, rb["target"], label, rb["prql"].replace("\n", " | ")[:160], rr["prql"].replace("\n", " | ")[:240]),
                         replay, lambda _c, f=fid: f)
@@ -574,6 +586,34 @@ def gen_batch(ck, rng, n_base, n_two, n_dir, site_hist, n_sorted=60, n_known=3):
             cases.append(c)
 
     cases += directed_known(rng, n_known)
+    cases += directed_shared(ck, rng)
+    return cases
+
+
+def directed_shared(ck, rng):
+    """base programs that land in the shared relational findings (vplib/rel/e2e.directed_known, plus generator-made shapes of
+    F19 / F37), rewritten at every site like any other base: a rewrite that moves the boundary the defect depends on
+    changes the result, and the pair is attributed to the finding"""
+    cases = []
+    bases = []
+    for fid, pg, inst in E.directed_known(rng):
+        if isinstance(pg, P.RawProgram) or pg.meta.get("let_at"):
+            continue            # let-bound forms are what the let rewrite produces anyway (F62 / F64 / F68 / C07-N1)
+        bases.append((pg, [inst] if inst else None))
+    g = W.RGen(rng, max_steps=5)
+    for force in (["sort", "take", "distinct"], ["take", "distinct"], ["sort", "take", "sort", "take", "group_agg"], ["sort", "take", "sort", "take", "aggregate"]):
+        for _ in range(ck.n(2, 4)):
+            pg = g.program(n_steps=len(force), force=list(force))
+            bases.append((pg, None))
+    for pg, insts in bases:
+        insts = insts or [P.gen_instance(rng, max_rows=6, min_rows=4), P.gen_instance(rng, max_rows=5, min_rows=3)]
+        c = make_case(pg, insts)
+        rp = W.from_program(pg)
+        for lab, q in W.sites_let(rp, rng) + W.sites_identity(rp, rng) + W.sites_func(rp, rng, per_slot=1) + W.sites_trfunc(rp, rng, per_site=1, maxlen=2):
+            k = W.kind_of(lab)
+            c.add(k, lab, q.prql(), q.coq() if k == "identity" else None)
+        if c.variants:
+            cases.append(c)
     return cases
 
 
